@@ -24,8 +24,8 @@ def refine_mechanism(cls: str, v: Dict[str, Any]) -> str:
         return "variable-named-self-or-kwargs"
     if "invalid enum member name" in d or "member order does not match _order_" in d or re.search(r"input_value='(_ignore_|_order_|_missing_|_generate_next_value_|mro)'", d):
         return "enum-value-reserved-by-python-enum"
-    if cls == "names.underscore_digit" and re.search(r"Cannot parse.*\n\s+[0-9]", d, re.S):
-        return "name-leading-underscore-then-digit"
+    if cls == "names.underscore_digit" and (re.search(r"Cannot parse.*\n\s+[0-9]", d, re.S) or "illegal target for annotation" in d or "invalid decimal literal" in d):
+        return "name-leading-underscore-then-digit"  # the generated module is not Python because a name starts with a digit
     case_text = str((v.get("case") or {}).get("_queries", "")) + str((v.get("case") or {}).get("_sdl", ""))
     if cls == "names.dunder_like" and ("typename__" in d or "__typename" in d) and re.search(r"\btypename__\b\s*[:(]", case_text):  # the input really uses the literal name typename__ and the witness is about it
         return "user-name-equals-typename-alias"
